@@ -115,6 +115,8 @@ func exec(t []string) string {
 	switch t[0] {
 	case "ctx":
 		return pctx.Exec(t)
+	case "e2e":
+		return pctx.E2E(t)
 	case "chk":
 		h := u32(t[1])
 		var fl []config.FrozenAddress
@@ -215,6 +217,8 @@ func oracle(t []string, out string) *hx.Violation {
 	switch t[0] {
 	case "ctx":
 		return pctx.Oracle(t, out)
+	case "e2e":
+		return pctx.E2EOracle(t, out)
 	case "chk":
 		if out != "ok" {
 			return nil
@@ -279,6 +283,7 @@ func words(alpha string, maxLen int) []string {
 func gen(g *hx.Gen) {
 	pctx.Gen(g) // the real ContextCheck on an in-process node
 	pctx.Close()
+	pctx.E2EGen(g, true) // mempool admission, block validation and the RPC path on fresh nodes
 	w4 := words("FGO", 4)
 	w3 := words("FGO", 3)
 	w2 := words("FGO", 2)
@@ -398,12 +403,12 @@ func nontrivial(t []string, out string) bool {
 }
 
 func bucket(t []string, out string) string {
-	if t[0] == "ctx" {
+	if t[0] == "ctx" || t[0] == "e2e" {
 		f := strings.Fields(out)
 		if len(f) >= 2 {
-			return "ctx/" + f[0] + " " + f[1]
+			return t[0] + "/" + f[0] + " " + f[1]
 		}
-		return "ctx/" + out
+		return t[0] + "/" + out
 	}
 	if t[0] == "chk" {
 		f := strings.Fields(out)
